@@ -48,6 +48,13 @@ def build_input(call):
         return range(base, base + n)
     if kind == 'gen':
         return (mk(i) for i in range(n + extra))
+    if kind == 'gen_slow':
+        def gs():
+            for i in range(n):
+                time.sleep(call.get('gen_delay', 0.15))
+                yield mk(i)
+            time.sleep(call.get('gen_tail', 0.4))
+        return gs()
     if kind == 'gen_raising':
         def g():
             for i in range(n):
@@ -138,7 +145,17 @@ class LineInjector:
     def _point(self, key):
         self.hits[key] = self.hits.get(key, 0) + 1
         sp = self.spec
-        if sp.get('mode') == 'line' and not self.fired and key == sp['at'] and self.hits[key] == sp.get('hit', 1):
+        if sp.get('mode') == 'line' and not self.fired and 'at_re' in sp:
+            import re
+            if re.fullmatch(sp['at_re'], key):
+                self.nre = getattr(self, 'nre', 0) + 1
+                if self.nre != sp.get('hit', 1):
+                    return
+            else:
+                return
+        elif not (sp.get('mode') == 'line' and not self.fired and key == sp.get('at') and self.hits[key] == sp.get('hit', 1)):
+            return
+        if True:
             self.fired = True
             if sp.get('group'):
                 os.killpg(os.getpgid(0), signal.SIGINT)
